@@ -592,7 +592,7 @@ pub fn partial_evaluate(&mut self, state: &State) -> (r: %s)
                         (('before', r'i \+= 1;\s*continue;'), '''proof { assert(!state.entries@.contains_key(row) && !state.entries@.contains_key(column)); assert(row == self.rows[i as int] && column == self.columns[i as int]);
                         assert(qpe_run(self.rows@, self.columns@, self.values@, i as int, state.entries@, gm) == qpe_run(self.rows@, self.columns@, self.values@, i as int + 1, state.entries@, gm)); }
                     '''),
-                        (('before', r'continue;\s*\}\s*\}\s*self\.rows\.swap_remove'), '''proof {
+                        (('before', r'continue;'), '''proof {
                         lemma_unfixed_step(self.rows@, self.columns@, i as int - 1, state.entries@);
                         assert(qpe_run(self.rows@, self.columns@, self.values@, i as int, state.entries@, gm) == qpe_lin(*old(self), state.entries@)); }
                     '''),
